@@ -36,6 +36,11 @@ claim("C13",
       "Trusted: Lean kernel, 3 axioms, oracle hook (objectpath dump), identzip helper, generator. The -debugdir garbled tree is taken to be what the compiler received.",
       "Lean 4 proof (reverse table completeness; map=build by construction) + four-way end-to-end comparison of the real commands", "DESIGN.md 5/C13")
 
+claim("C14",
+      "Lean 4 theorems over the model of the per-package scope decision (cache_shared.go) with the runtimeAndDeps table regenerated from go_std_tables.go: scope_exact (iff characterisation), runtime_never (for EVERY GOGARBLE, incl. *), fortest_follows (test variants decided on the tested package's path), out_of_scope_names / import_path / package_name (a package outside the scope keeps every object name, its import path and package name, for all objects and configurations - via the naming model), nothing_matches_is_error. Tie: library-level differential of the pattern matcher against golang.org/x/mod's MatchPrefixPatterns (structured + random globs; it caught the TrimSuffix step my first model lacked); the real go list route in build and test mode under ~30 pattern lists with every package's ToObfuscate compared to the model; end-to-end builds of GOGARBLE subsets (behaviour equal, garble map lists exactly the selected packages, selected packages renamed, others verbatim and without line directives, nothing-matches rejected).",
+      "Trusted: Lean kernel, 3 axioms, extractor, oracle hooks. path.Match is modelled on the literal/*/? fragment. Known finding (open): struct conversion across the GOGARBLE boundary fails to build.",
+      "Lean 4 proof (scope decision) + library/oracle differential + subset builds", "DESIGN.md 5/C14")
+
 claim("C15",
       "Lean 4 theorems over a model of go/types (mutual inductive Ty with named/alias/generic/struct/func types), Go's identity relation, type-parameter substitution and garble's modified struct hasher: for ALL struct types, identical (tags ignored, aliases transparent) => same struct salt; instantiation with any type arguments keeps the salt; tags never matter; hence corresponding fields of identical structs get the same obfuscated name under any configuration, whichever package computes it. Tie: per run ~360 generated struct pairs over 4 packages (each struct re-declared elsewhere with <=1 perturbation, generic/alias/anonymous/embedded forms); shapes are serialised from go/types itself; the model's identity relation is checked against types.IdenticalIgnoreTags/Identical, its hash against the real typeutil_hash, field names against the real hashWithStruct, and computeFieldToStruct must resolve every field object.",
       "Trusted: Lean kernel, 3 standard axioms, oracle hook (type serialiser) + differ; go/types as the reference for Go's type identity. Interfaces are modelled by method count (generated ones are empty). Conversions are compiled end-to-end only by the e2e tiers.",
